@@ -239,7 +239,7 @@ func (fr *Frame) evalC(e *CExpr, env *Env, hint *Sort) *GVal {
 		}
 		if bt.S == SStr {
 			idx := fr.termIn(fr.evalC(e.Args[1], env, SInt), env)
-			return tv(App("str.at", SBV8, bt, idx))
+			return tv(App("gs.at", SBV8, bt, idx))
 		}
 		return bad("index on %s", bt.S.S)
 	case "un":
@@ -476,15 +476,15 @@ func (fr *Frame) evalBin(e *CExpr, env *Env, hint *Sort) *GVal {
 	case s == SStr:
 		switch op {
 		case "+":
-			return tv(App("str.cat", SStr, a, b))
+			return tv(App("gs.cat", SStr, a, b))
 		case "<":
-			return tv(App("str.lt", SBool, a, b))
+			return tv(App("gs.lt", SBool, a, b))
 		case ">":
-			return tv(App("str.lt", SBool, b, a))
+			return tv(App("gs.lt", SBool, b, a))
 		case "<=":
-			return tv(Not(App("str.lt", SBool, b, a)))
+			return tv(Not(App("gs.lt", SBool, b, a)))
 		case ">=":
-			return tv(Not(App("str.lt", SBool, a, b)))
+			return tv(Not(App("gs.lt", SBool, a, b)))
 		}
 	}
 	ex.unsupp("contract: operator %s on %s in %s", op, s.S, e)
@@ -505,7 +505,7 @@ func (fr *Frame) evalCall(e *CExpr, env *Env, hint *Sort) *GVal {
 		x := fr.termIn(g, env)
 		switch {
 		case x.S == SStr:
-			return tv(App("str.len", SInt, x))
+			return tv(App("gs.len", SInt, x))
 		case w.SliceInfoOfSort(x.S) != nil:
 			return tv(w.SlLen(x))
 		case w.MapInfoOfSort(x.S) != nil:
@@ -590,9 +590,9 @@ func (fr *Frame) evalCall(e *CExpr, env *Env, hint *Sort) *GVal {
 		x := arg(0, SInt)
 		return tv(And(Le(minInt, x), Le(x, maxInt)))
 	case "substr":
-		return tv(App("str.sub", SStr, arg(0, SStr), arg(1, SInt), arg(2, SInt)))
+		return tv(App("gs.sub", SStr, arg(0, SStr), arg(1, SInt), arg(2, SInt)))
 	case "byteAt":
-		return tv(App("str.at", SBV8, arg(0, SStr), arg(1, SInt)))
+		return tv(App("gs.at", SBV8, arg(0, SStr), arg(1, SInt)))
 	case "bp": // bindingPowers lookup
 		if g, ok := ex.p.globals["bindingPowers"]; ok {
 			k := arg(0, SInt)
